@@ -8,6 +8,7 @@
 import Gen.BmkSymR
 import Gen.ObsR
 import Proofs.Trig
+import Proofs.Bridge
 
 namespace Gep.R.C07
 open Gep.R
@@ -20,7 +21,7 @@ noncomputable def oddPol (f : Pt → ℝ) (pt : Pt) : ℝ := (f pt - f (flipPol 
 
 /-- the BH propagator product, recomputed at the mirrored angle, is unchanged (it depends on cos φ) -/
 theorem P1P2_mirror (c : Consts) (pt : Pt) : P1P2 c (mirror pt) = P1P2 c pt := by
-  simp only [P1P2, bmk_sym, kcos_mirror]
+  bridge_simp [P1P2, bmk_sym, kcos_mirror]
 
 /-- unpolarised-target part of the cross section (up to the common prefactor) per formula set -/
 noncomputable def unpBMK (c : Consts) (m : CFFs) (pt : Pt) : ℝ :=
@@ -41,7 +42,8 @@ noncomputable def lpBM10 (c : Consts) (m : CFFs) (pt : Pt) : ℝ :=
 noncomputable def lpTw2 (c : Consts) (m : CFFs) (pt : Pt) : ℝ :=
   FS_BM10tw2_TBH2LP c m pt + FS_BM10tw2_TINTLP c m pt + FS_BM10tw2_TDVCS2LP c m pt
 
-/-- `simp` set that unfolds the T-terms one level and applies every generated symmetry lemma -/
+/-- `simp` set that unfolds the T-terms one level and applies every generated symmetry lemma (`one_mul`: a harmonic
+    written as cos(n·φ) with n = 1) -/
 macro "bmk_unfold" : tactic => `(tactic|
   simp only [evenPol, oddPol, unpBMK, unpHot, unpEx, unpBM10, unpTw2, lpEx, lpBM10, lpTw2,
     FS_BMK_TBH2unp, FS_BMK_TINTunp, FS_BMK_TDVCS2unp, FS_hotfixedBMK_TBH2unp, FS_hotfixedBMK_TINTunp,
@@ -52,7 +54,11 @@ macro "bmk_unfold" : tactic => `(tactic|
     BMK.TBH2unp, BMK.TINTunp, BMK.TDVCS2unp, hotfixedBMK.TINTunp, hotfixedBMK.TDVCS2unp,
     BM10ex.TINTunp, BM10ex.TDVCS2unp, BM10.TINTunp, BM10.TDVCS2unp, BM10tw2.TINTunp,
     BM10ex.TBH2LP, BM10ex.TINTLP, BM10ex.TDVCS2LP, BM10.TINTLP, BM10.TDVCS2LP, BM10tw2.TINTLP,
-    bmk_sym, kcos_mirror, ksin_mirror, kcos_mirror2, ksin_mirror2, kcos_mirror3, ksin_mirror3])
+    bmk_sym, one_mul, mul_one, kcos_mirror, ksin_mirror, kcos_mirror2, ksin_mirror2, kcos_mirror3, ksin_mirror3,
+    kcos_mirror2', ksin_mirror2', kcos_mirror3', ksin_mirror3'])
+
+/-- unfold, apply the symmetry lemmas, and close what is left by field arithmetic (`bridge`, Proofs/Bridge.lean) -/
+macro "bmk_close" : tactic => `(tactic| (bmk_unfold <;> bridge))
 
 /-! ### φ → 2π − φ -/
 
@@ -60,44 +66,44 @@ macro "bmk_unfold" : tactic => `(tactic|
 theorem unp_mirror_BMK (c : Consts) (m : CFFs) (pt : Pt) :
     evenPol (unpBMK c m) (mirror pt) = evenPol (unpBMK c m) pt ∧
     oddPol (unpBMK c m) (mirror pt) = -oddPol (unpBMK c m) pt := by
-  constructor <;> (bmk_unfold; ring)
+  constructor <;> bmk_close
 
 theorem unp_mirror_hotfixedBMK (c : Consts) (m : CFFs) (pt : Pt) :
     evenPol (unpHot c m) (mirror pt) = evenPol (unpHot c m) pt ∧
     oddPol (unpHot c m) (mirror pt) = -oddPol (unpHot c m) pt := by
-  constructor <;> (bmk_unfold; ring)
+  constructor <;> bmk_close
 
 theorem unp_mirror_BM10ex (c : Consts) (m : CFFs) (pt : Pt) :
     evenPol (unpEx c m) (mirror pt) = evenPol (unpEx c m) pt ∧
     oddPol (unpEx c m) (mirror pt) = -oddPol (unpEx c m) pt := by
-  constructor <;> (bmk_unfold; ring)
+  constructor <;> bmk_close
 
 theorem unp_mirror_BM10 (c : Consts) (m : CFFs) (pt : Pt) :
     evenPol (unpBM10 c m) (mirror pt) = evenPol (unpBM10 c m) pt ∧
     oddPol (unpBM10 c m) (mirror pt) = -oddPol (unpBM10 c m) pt := by
-  constructor <;> (bmk_unfold; ring)
+  constructor <;> bmk_close
 
 theorem unp_mirror_BM10tw2 (c : Consts) (m : CFFs) (pt : Pt) :
     evenPol (unpTw2 c m) (mirror pt) = evenPol (unpTw2 c m) pt ∧
     oddPol (unpTw2 c m) (mirror pt) = -oddPol (unpTw2 c m) pt := by
-  constructor <;> (bmk_unfold; ring)
+  constructor <;> bmk_close
 
 /-- longitudinal target: the target single-spin part (helicity-independent) is odd, the double-spin
     part (∝ helicity) is even — BM10 family -/
 theorem lp_mirror_BM10ex (c : Consts) (m : CFFs) (pt : Pt) :
     evenPol (lpEx c m) (mirror pt) = -evenPol (lpEx c m) pt ∧
     oddPol (lpEx c m) (mirror pt) = oddPol (lpEx c m) pt := by
-  constructor <;> (bmk_unfold; ring)
+  constructor <;> bmk_close
 
 theorem lp_mirror_BM10 (c : Consts) (m : CFFs) (pt : Pt) :
     evenPol (lpBM10 c m) (mirror pt) = -evenPol (lpBM10 c m) pt ∧
     oddPol (lpBM10 c m) (mirror pt) = oddPol (lpBM10 c m) pt := by
-  constructor <;> (bmk_unfold; ring)
+  constructor <;> bmk_close
 
 theorem lp_mirror_BM10tw2 (c : Consts) (m : CFFs) (pt : Pt) :
     evenPol (lpTw2 c m) (mirror pt) = -evenPol (lpTw2 c m) pt ∧
     oddPol (lpTw2 c m) (mirror pt) = oddPol (lpTw2 c m) pt := by
-  constructor <;> (bmk_unfold; ring)
+  constructor <;> bmk_close
 
 /-! ### real CFFs: no single-spin differences -/
 
@@ -107,14 +113,14 @@ theorem real_cffs_no_beam_ssa (c : Consts) (m : CFFs) (pt : Pt) :
     oddPol (unpBMK c (realCFFs m)) pt = 0 ∧ oddPol (unpHot c (realCFFs m)) pt = 0 ∧
     oddPol (unpEx c (realCFFs m)) pt = 0 ∧ oddPol (unpBM10 c (realCFFs m)) pt = 0 ∧
     oddPol (unpTw2 c (realCFFs m)) pt = 0 := by
-  refine ⟨?_, ?_, ?_, ?_, ?_⟩ <;> (bmk_unfold; ring)
+  refine ⟨?_, ?_, ?_, ?_, ?_⟩ <;> bmk_close
 
 /-- … and so does the target single-spin part (helicity-independent part of the longitudinal-target
     term): XUL = 0 for an unpolarised beam — BM10 family -/
 theorem real_cffs_no_target_ssa (c : Consts) (m : CFFs) (pt : Pt) :
     evenPol (lpEx c (realCFFs m)) pt = 0 ∧ evenPol (lpBM10 c (realCFFs m)) pt = 0 ∧
     evenPol (lpTw2 c (realCFFs m)) pt = 0 := by
-  refine ⟨?_, ?_, ?_⟩ <;> (bmk_unfold; ring)
+  refine ⟨?_, ?_, ?_⟩ <;> bmk_close
 
 /-! ### lepton charge -/
 
@@ -156,14 +162,14 @@ theorem pure_BH_no_beam_asymmetry (c : Consts) (m : CFFs) (pt : Pt) :
     oddPol (unpBMK c (zeroCFFs m)) pt = 0 ∧ oddPol (unpHot c (zeroCFFs m)) pt = 0 ∧
     oddPol (unpEx c (zeroCFFs m)) pt = 0 ∧ oddPol (unpBM10 c (zeroCFFs m)) pt = 0 ∧
     oddPol (unpTw2 c (zeroCFFs m)) pt = 0 := by
-  refine ⟨?_, ?_, ?_, ?_, ?_⟩ <;> (bmk_unfold; ring)
+  refine ⟨?_, ?_, ?_, ?_, ?_⟩ <;> bmk_close
 
 /-- pure BH, longitudinal target: the target-spin term has no helicity-independent part, so the
     target single-spin asymmetry (unpolarised beam) is zero -/
 theorem pure_BH_no_target_asymmetry (c : Consts) (m : CFFs) (pt : Pt) :
     evenPol (lpEx c (zeroCFFs m)) pt = 0 ∧ evenPol (lpBM10 c (zeroCFFs m)) pt = 0 ∧
     evenPol (lpTw2 c (zeroCFFs m)) pt = 0 := by
-  refine ⟨?_, ?_, ?_⟩ <;> (bmk_unfold; ring)
+  refine ⟨?_, ?_, ?_⟩ <;> bmk_close
 
 /-- non-vacuity: the transformations act on concrete data as intended -/
 example (pt : Pt) (h : pt.phi = 1) : (mirror pt).phi = 2 * Real.pi - 1 ∧ (flipPol (flipChg pt)).in1charge = -pt.in1charge := by
@@ -263,7 +269,7 @@ theorem pure_BH_TSA_zero (c : Consts) (m : CFFs) (pt : Pt) (h0 : pt.in1polarizat
     intro q
     refine ⟨?_, ?_, ?_⟩ <;>
       (simp only [XS_BM10ex, XS_BM10, XS_BM10tw2]; xs_unfold
-       simp only [BM10ex.TBH2LP, c0, c1, zero_mul, add_zero, mul_zero])
+       bridge_simp [BM10ex.TBH2LP, c0, c1, zero_mul, add_zero, mul_zero])
   exact ⟨Obs_TSA_zero _ pt pol v (key (-pol)).1, Obs_TSA_zero _ pt pol v (key (-pol)).2.1,
     Obs_TSA_zero _ pt pol v (key (-pol)).2.2⟩
 
